@@ -87,12 +87,10 @@ def storage_inputs(rng):
         out.append(("storage.Peers", i32(2) + i32(c) + peer, "peers.go:PeerRepository.Load:count"))
     for c in (-1, -2 ** 31, 0x7fffffff):
         out.append(("storage.Peers", i32(2) + i32(1) + i32(c) + b"x" * 8, "peers.go:readPeer:addressSize"))
-        out.append(("storage.PeerBuf:2", i32(c) + b"x" * 8, "peers.go:readPeer:addressSize"))
     # mid-range sizes (valid by the record format's own limit), with and without the claimed bytes present, and
     # honest long records
     for c in (255, 256, 257, 300, 4096, 65535, 65536):
         out.append(("storage.Peers", i32(2) + i32(1) + i32(c) + b"x" * 8, "peers.go:readPeer:addressSize"))
-        out.append(("storage.PeerBuf:2", i32(c) + b"x" * 8, "peers.go:readPeer:addressSize"))
         if c <= 65535:
             out.append(("storage.Peers", i32(2) + i32(1) + i32(c) + b"a" * c + i32(5) + u32(1600000000), "peers.go:readPeer:addressSize"))
     for n in (1, 1023, 1024, 1025, 5000):
